@@ -558,7 +558,7 @@ func caseBig(in bigIn, wantCoq bool) (coq string, msg string) {
 func gen(c *hxlib.Ctx) {
 	r := c.Rand
 	// 1. single packets: wire bytes
-	for i := 0; i < c.N(200); i++ {
+	for i := 0; i < c.N(140); i++ {
 		maxP, maxE := 64, 12
 		if i%40 == 0 {
 			maxE = 1023
@@ -572,7 +572,7 @@ func gen(c *hxlib.Ctx) {
 		c.Emit(hxlib.Case{Kind: "enc", Coq: coq, Input: map[string]interface{}{"t": "enc", "v": encIn{toJ(f)}}, Nontrivial: true, OracleErr: msg})
 	}
 	// 2. streams through adversarial chunk readers
-	for i := 0; i < c.N(140); i++ {
+	for i := 0; i < c.N(120); i++ {
 		n := 1 + r.Intn(4)
 		if i%25 == 0 {
 			n = 0
@@ -742,7 +742,7 @@ func main() {
 	hxlib.Main(hxlib.Spec{
 		ID: "C30",
 		Rule: "packets with random/boundary header fields (protocol, sub-protocol, 20-byte src, dest, ttl, extension hint and bytes) written with PacketWriter and read with PacketReader (buffered) and Packet.ReadFrom (unbuffered) over chunk readers: whole, 1 byte at a time, small/random chunks, empty reads, cuts inside headers and footers, data+EOF; streams of 0-4 packets, truncated streams, trailing garbage, over-limit length; every single-byte change of small packets (two new values per position); payload sizes 4095..65536 (1 MiB in the thorough tier) described by a repeated pattern; non-trivial = every case that contains at least one packet or malformed bytes; distinct = distinct Coq case term",
-		Shard: 60,
+		Shard: 100,
 		Gen:   gen, Replay: replay,
 	})
 }
